@@ -12,6 +12,7 @@ let () =
           | "bs" -> Bits_drv.run (Array.sub toks 1 (Array.length toks - 1))
           | "lex" -> Lex_drv.run (Array.sub toks 1 (Array.length toks - 1))
           | "xs" -> Xs_drv.run (Array.sub toks 1 (Array.length toks - 1))
+          | "xp" -> ("UNSUP", "-")     (* crash-freedom stream: implementation only *)
           | "pool" -> Pool_drv.run (Array.sub toks 1 (Array.length toks - 1))
           | "c1" -> Xs_drv.run_c1 (Array.sub toks 1 (Array.length toks - 1))
           | "xf" -> Xs_drv.run ~flocq:true (Array.sub toks 1 (Array.length toks - 1))
